@@ -464,6 +464,14 @@ func (u *Unit) evalBinary(st *State, e *ast.BinaryExpr) Value {
 	x := u.eval(st, e.X)
 	y := u.eval(st, e.Y)
 	if e.Op == token.SHL || e.Op == token.SHR {
+		if n, ok := isIntLit(y.Term); ok && y.K == KInt && x.K == KNum && x.Term != nil && isBV(x.Term) && n >= 0 {
+			// fixed-width value shifted by a constant count
+			w := bvWidth(x.Term.Sort)
+			if n > int64(w) {
+				n = int64(w)
+			}
+			return u.numShift(e.Op, x, Value{K: KNum, T: types.Typ[types.Uint64], Term: BVLit64(n, w)}, x.T, types.Typ[types.Uint64])
+		}
 		if x.K == KInt || y.K == KInt {
 			u.errorf("%s: shift on index integers not modelled", u.pos(e))
 			return x
@@ -1018,6 +1026,23 @@ func (u *Unit) execAssign(st *State, s *ast.AssignStmt) []*State {
 			if len(vals) == len(s.Lhs) {
 				for i, l := range s.Lhs {
 					u.assign(st, l, vals[i], s.Tok == token.DEFINE)
+				}
+				return []*State{st}
+			}
+		}
+	}
+	if len(s.Rhs) == 1 && len(s.Lhs) == 2 {
+		// v, ok := x.(T): never panics; ok reports whether the dynamic type is T
+		if ta, ok := ast.Unparen(s.Rhs[0]).(*ast.TypeAssertExpr); ok && ta.Type != nil {
+			x := u.eval(st, ta.X)
+			want := u.conc(u.staticType(ta))
+			if x.K == KIface && x.Inner != nil {
+				if types.Identical(x.Inner.T, want) {
+					u.assign(st, s.Lhs[0], *x.Inner, s.Tok == token.DEFINE)
+					u.assign(st, s.Lhs[1], Value{K: KBool, T: types.Typ[types.Bool], Term: True}, s.Tok == token.DEFINE)
+				} else {
+					u.assign(st, s.Lhs[0], u.zeroValue(st, want), s.Tok == token.DEFINE)
+					u.assign(st, s.Lhs[1], Value{K: KBool, T: types.Typ[types.Bool], Term: False}, s.Tok == token.DEFINE)
 				}
 				return []*State{st}
 			}
